@@ -176,4 +176,79 @@ def s3Keys (ns t : List Char) (p b : Int) : List (List Char) := [segmentKey ns t
 def etcdKeys (t : List Char) (p : Int) : List (List Char) :=
   [offsetKey t p, topicConfigKey t, partitionStateKey t p, leaseKey t p, assignmentKey t p]
 
+/-! ### consumer-offset keys and the DELETE SELECTORS of `DeleteTopic`
+
+`EtcdStore.DeleteTopic(t)` removes (1) the key range with prefix `/kafscale/topics/<t>/`
+(`deleteTopicOffsets`, one range delete) and (2) every key under `/kafscale/consumers/` that CONTAINS
+`/offsets/<t>/` (`deleteConsumerOffsets`: `Get` with prefix, `strings.Contains` filter, one delete per key).
+`InMemoryStore.DeleteTopic(t)` removes every `offsets` entry whose key has the prefix `<t>:` and every
+`consumerOffsets` entry whose struct key has `topic == t`.  A selector is a predicate over keys. -/
+
+def consumersPfx : List Char := str "/kafscale/consumers/"
+/-- `consumerOffsetKey` / `ConsumerOffsetKey`: `/kafscale/consumers/<group>/offsets/<topic>/<partition>`. -/
+def consumerOffsetKey (g t : List Char) (p : Int) : List Char :=
+  consumersPfx ++ g ++ str "/offsets/" ++ t ++ '/' :: intStr p
+/-- `ConsumerGroupKey`: `/kafscale/consumers/<group>/metadata` (same `Get` range as the commits). -/
+def consumerGroupKey (g : List Char) : List Char := consumersPfx ++ g ++ str "/metadata"
+
+/-- `strings.Contains(s, pat)`. -/
+def containsB (pat : List Char) : List Char → Bool
+  | [] => pat.isPrefixOf []
+  | c :: r => pat.isPrefixOf (c :: r) || containsB pat r
+
+/-- `fmt.Sprintf("/offsets/%s/", topic)`. -/
+def offsetsMarker (t : List Char) : List Char := str "/offsets/" ++ t ++ ['/']
+
+/-- Selector (1): `clientv3.WithPrefix()` on `/kafscale/topics/<t>/`. -/
+def topicDeleteSel (t k : List Char) : Bool := (topicDeletePrefix t).isPrefixOf k
+/-- Selector (2), HEAD: under `/kafscale/consumers/`, `strings.Contains(key, "/offsets/<t>/")`. -/
+def coffDeleteSel (t k : List Char) : Bool := consumersPfx.isPrefixOf k && containsB (offsetsMarker t) k
+/-- Everything `EtcdStore.DeleteTopic(t)` removes from etcd (the snapshot key is rewritten, not removed). -/
+def etcdDeleteSel (t k : List Char) : Bool := topicDeleteSel t k || coffDeleteSel t k
+/-- `InMemoryStore.DeleteTopic`: `strings.HasPrefix(key, name+":")` over the `offsets` map. -/
+def memOffDeleteSel (t k : List Char) : Bool := (memDeletePrefix t).isPrefixOf k
+/-- `InMemoryStore.DeleteTopic`: `key.topic == name` over the struct-keyed `consumerOffsets` map. -/
+def memCoffDeleteSel (t : List Char) (key : List Char × List Char × Int) : Bool := key.2.1 == t
+
+/-- `strconv.ParseInt(s, 10, 32)` succeeds (range aside): optional sign, then at least one digit. -/
+def isIntStr : List Char → Bool
+  | '-' :: d => d ≠ [] && d.all Char.isDigit
+  | '+' :: d => d ≠ [] && d.all Char.isDigit
+  | d => d ≠ [] && d.all Char.isDigit
+
+/-- `key[:i]`, `key[i+1:]` for `i := strings.LastIndexByte(key, '/')`. -/
+def lastSlashSplit (k : List Char) : Option (List Char × List Char) :=
+  match k.reverse.dropWhile (· ≠ '/') with
+  | [] => none
+  | _ :: b => some (b.reverse, (k.reverse.takeWhile (· ≠ '/')).reverse)
+
+/-- Selector (2) as PROPOSED (fixes/C22-delete-consumer-offsets-anchored.patch): anchored at the END of the
+key — `…/offsets/<t>/<integer>` — instead of "contains". -/
+def coffDeleteSelFixed (t k : List Char) : Bool :=
+  consumersPfx.isPrefixOf k &&
+  match lastSlashSplit k with
+  | some (b, a) => isIntStr a && (str "/offsets/" ++ t).isSuffixOf b
+  | none => false
+
+/-- A regular-expression atom sequence built from a topic name WITHOUT `regexp.QuoteMeta`: `.` matches any
+byte, every other legal topic byte matches itself (no other legal byte is a metacharacter). -/
+def dotMatch : List Char → List Char → Bool
+  | [], [] => true
+  | c :: r, x :: s => (c == '.' || c == x) && dotMatch r s
+  | _, _ => false
+
+/-- Selector (2) of seeded change C22-r3-2: `^/kafscale/consumers/.+/offsets/<t>/[0-9]+$` with the topic
+spliced in unquoted.  The lengths of the last three pieces are fixed by the pattern, so matching is
+deterministic: last segment = digits, before it `<t>`-many bytes matched by `dotMatch`, before those
+`/offsets/`, before that a non-empty `.+`. -/
+def regexSel (t k : List Char) : Bool :=
+  consumersPfx.isPrefixOf k &&
+  match lastSlashSplit (k.drop consumersPfx.length) with
+  | some (b, a) =>
+    a ≠ [] && a.all Char.isDigit &&
+    dotMatch t (b.drop (b.length - t.length)) &&
+    (str "/offsets/").isSuffixOf (b.take (b.length - t.length)) &&
+    decide (b.length > t.length + 9)
+  | none => false
+
 end KafVerif.MetaKeys
